@@ -411,6 +411,37 @@ func (ev *SpecEval) callSpec(e *SExpr) SVal {
 			return SVal{V: ev.cur.load(ev.rvalue(v).(*Term), p.Elem()), T: p.Elem()}
 		}
 		return SVal{Loc: ev.rvalue(v).(*Term), T: p.Elem()}
+	case "as": // as(ref, "pkg.Type"): view a reference (e.g. the payload of an interface) as a pointer to the named struct type
+		var ref *Term
+		switch x := ev.rvalue(ev.eval(e.Args[0])).(type) {
+		case *Term:
+			ref = x
+		case IfaceV:
+			ref = x.Val
+		}
+		if ref == nil || len(e.Args) != 2 || e.Args[1].Kind != "str" {
+			ev.fail("as(ref, \"pkg.Type\")")
+		}
+		t := ev.vc.prog.namedType(e.Args[1].Name)
+		if t == nil {
+			ev.fail("unknown type %s", e.Args[1].Name)
+		}
+		return SVal{Loc: ref, T: t}
+	case "hastype": // hastype(iface, "pkg.Type" | "*pkg.Type")
+		iv := ev.rvalue(ev.eval(e.Args[0])).(IfaceV)
+		name := e.Args[1].Name
+		var t types.Type
+		if strings.HasPrefix(name, "*") {
+			if nt := ev.vc.prog.namedType(name[1:]); nt != nil {
+				t = types.NewPointer(nt)
+			}
+		} else {
+			t = ev.vc.prog.namedType(name)
+		}
+		if t == nil {
+			ev.fail("unknown type %s", name)
+		}
+		return SVal{V: Eq(iv.Tag, IntLit(typeTag(t))), T: boolT}
 	case "tagof":
 		v := ev.rvalue(ev.eval(e.Args[0])).(IfaceV)
 		return SVal{V: v.Tag, T: intT}
@@ -448,6 +479,11 @@ func (ev *SpecEval) callSpec(e *SExpr) SVal {
 			alts = append(alts, And(cs...))
 		}
 		return SVal{V: Or(alts...), T: boolT}
+	case "maphas": // maphas(m, key): key present in a Go map value
+		mv := ev.eval(e.Args[0])
+		m := ev.rvalue(mv).(*Term)
+		key := mapKeyTerm(ev.rvalue(ev.eval(e.Args[1])))
+		return SVal{V: Select(ev.cur.heapGet("M:has"), MKey(m, key)), T: boolT}
 	case "lookup": // lookup(m, key): m[key] of a Go map value
 		mv := ev.eval(e.Args[0])
 		mt, ok := mv.T.Underlying().(*types.Map)
